@@ -6,8 +6,8 @@ from . import lena_sequence
 def alter_sequence(seq):
     orig_seq = seq
     seq = flatten(seq)
-    changed = False
-    if not isinstance(seq, lena_sequence.LenaSequence):
+    # flatten returns a list for nested sequences
+    if not isinstance(seq, (lena_sequence.LenaSequence, tuple, list)):
         # an element
         el = seq
         if hasattr(el, "alter_sequence") and callable(el.alter_sequence):
@@ -18,14 +18,10 @@ def alter_sequence(seq):
         el = seq[ind]
         if hasattr(el, "alter_sequence") and callable(el.alter_sequence):
             new_seq = el.alter_sequence(seq)
-            if new_seq == seq:
-                changed = False
-            else:
-                changed = True
-                new_seq = alter_sequence(new_seq)
-    if not changed:
-        return orig_seq
-    return seq
+            if new_seq != seq:
+                # the altered sequence may be altered further
+                return alter_sequence(new_seq)
+    return orig_seq
 
 
 def flatten(seq):
